@@ -103,7 +103,8 @@ func (rd *realDecoder) getArrayLength() (int, error) {
 	if tmp > rd.remaining() {
 		rd.off = len(rd.raw)
 		return -1, ErrInsufficientData
-	} else if tmp > 2*math.MaxUint16 {
+	} else if tmp > 2*math.MaxUint16 || tmp < -1 {
+		// -1 is the null array; anything below is garbage that callers would hand to make()
 		return -1, errInvalidArrayLength
 	}
 	return tmp, nil
@@ -117,6 +118,14 @@ func (rd *realDecoder) getCompactArrayLength() (int, error) {
 
 	if n == 0 {
 		return 0, nil
+	}
+
+	// every element takes at least one byte: a count beyond the remaining bytes cannot be honest
+	if n-1 > uint64(rd.remaining()) {
+		rd.off = len(rd.raw)
+		return 0, ErrInsufficientData
+	} else if n-1 > 2*math.MaxUint16 {
+		return 0, errInvalidArrayLength
 	}
 
 	return int(n) - 1, nil
@@ -223,13 +232,32 @@ func (rd *realDecoder) getNullableString() (*string, error) {
 	return &tmpStr, err
 }
 
+// getCompactLength validates the length+1 of a compact string against the remaining bytes.
+// It returns -1 for the null marker (n == 0).
+func (rd *realDecoder) getCompactLength(n uint64) (int, error) {
+	if n == 0 {
+		return -1, nil
+	}
+	if n-1 > uint64(rd.remaining()) {
+		rd.off = len(rd.raw)
+		return 0, ErrInsufficientData
+	}
+	return int(n - 1), nil
+}
+
 func (rd *realDecoder) getCompactString() (string, error) {
 	n, err := rd.getUVarint()
 	if err != nil {
 		return "", err
 	}
 
-	length := int(n - 1)
+	length, err := rd.getCompactLength(n)
+	if err != nil {
+		return "", err
+	}
+	if length < 0 {
+		return "", errInvalidStringLength
+	}
 
 	tmpStr := string(rd.raw[rd.off : rd.off+length])
 	rd.off += length
@@ -242,9 +270,8 @@ func (rd *realDecoder) getCompactNullableString() (*string, error) {
 		return nil, err
 	}
 
-	length := int(n - 1)
-
-	if length < 0 {
+	length, err := rd.getCompactLength(n)
+	if err != nil || length < 0 {
 		return nil, err
 	}
 
@@ -263,6 +290,10 @@ func (rd *realDecoder) getCompactInt32Array() ([]int32, error) {
 		return nil, nil
 	}
 
+	if n-1 > uint64(rd.remaining()/4) {
+		rd.off = len(rd.raw)
+		return nil, ErrInsufficientData
+	}
 	arrayLength := int(n) - 1
 
 	ret := make([]int32, arrayLength)
@@ -337,15 +368,21 @@ func (rd *realDecoder) getStringArray() ([]string, error) {
 		rd.off = len(rd.raw)
 		return nil, ErrInsufficientData
 	}
-	n := int(binary.BigEndian.Uint32(rd.raw[rd.off:]))
+	n := int(int32(binary.BigEndian.Uint32(rd.raw[rd.off:])))
 	rd.off += 4
 
-	if n == 0 {
+	if n == 0 || n == -1 {
 		return nil, nil
 	}
 
 	if n < 0 {
 		return nil, errInvalidArrayLength
+	}
+
+	// every string takes at least its two length bytes
+	if n > rd.remaining()/2 {
+		rd.off = len(rd.raw)
+		return nil, ErrInsufficientData
 	}
 
 	ret := make([]string, n)
